@@ -98,7 +98,7 @@ def loop_rules(ctx, crate, body):
             ctx.ob("R03-1", body.path, "loop exit on iterator exhaustion", True, where=body.loc(a),
                    crate=crate.kind, nontrivial=False)
             continue
-        desc = "; ".join("%s=%s" % (render(atom), val) for atom, val in conds) or "unconditional"
+        desc = "; ".join("%s=%s" % (mir.render_key(atom), val) for atom, val in conds) or "unconditional"
         # a return that ends the function is also an early exit of the list
         ctx.ob("R03-1", body.path, "no early exit from the list loop (exit under %s)" % desc, False,
                key="R03-1|%s|exit|%s" % (body.path, desc), where=body.loc(a), crate=crate.kind,
